@@ -59,4 +59,14 @@ example :
             .replace (1 / 20) ⟨none, none, none⟩ 1, .save "b.lmpdat"] := by
   simp [Generated.Code.mofunCliTrace, decodeAll, decodeEv, evTable, lookup]
 
+/-- fourth batch (repair f7e45cd): the replication factors of `--mic`, translated from the python source line
+    `np.maximum(1, np.array(np.ceil(2*mic / np.diag(atoms.cell)), dtype=int))` (numpy expression expanded over the diagonal
+    of the cell), are the model's `micDims`: at least one copy in every direction -/
+theorem mofunCliMicRepls_eq (mic : Rat) (c : Mat3) :
+    Generated.Code.mofunCliMicRepls mic c = micDims mic (c.a.x, c.b.y, c.c.z) := by
+  first | rfl | (unfold Generated.Code.mofunCliMicRepls micDims micDim Generated.Py.ceil; simp [Rat.mul_comm, Int.max_comm])
+
+example : Generated.Code.mofunCliMicRepls 0 ⟨⟨10, 0, 0⟩, ⟨0, 10, 0⟩, ⟨0, 0, 10⟩⟩ = (1, 1, 1) := by decide +kernel
+example : Generated.Code.mofunCliMicRepls 12 ⟨⟨10, 0, 0⟩, ⟨0, 30, 0⟩, ⟨0, 0, 24⟩⟩ = (3, 1, 1) := by decide +kernel
+
 end Mofun.C20Code
